@@ -755,6 +755,26 @@ func totalOrNoSort(q QSpec) bool {
 	return false
 }
 
+// A bulk write through a sorted Skip/Limit window selects by position in the sorted sequence: when the sort keys tie, WHICH
+// documents fall into the window is not determined (Go's sort.Slice is not stable, the index orders ties by id, absent and
+// nil tie). The property promises nothing there, so generated writes get _id as a last sort key whenever they have a window.
+func totalizeWindow(q QSpec) QSpec {
+	opts, skip, limit, _ := q.effective()
+	if len(opts) == 0 || (skip == 0 && limit < 0) || totalOrNoSort(q) {
+		return q
+	}
+	steps := make([]QStep, len(q.Steps))
+	copy(steps, q.Steps)
+	for i := len(steps) - 1; i >= 0; i-- {
+		if steps[i].Kind == "sort" {
+			no := append(append([]SortOpt{}, steps[i].Opts...), SortOpt{"_id", 1})
+			steps[i].Opts = no
+			break
+		}
+	}
+	return QSpec{Coll: q.Coll, Steps: steps}
+}
+
 // track the generator's own (approximate) view of the database after an executed op
 func (h *HistGen) observe(o *Op, res T, env *Env) {
 	okRes := false
@@ -864,7 +884,16 @@ func runHistory(g *Gen, cfg HistCfg, backend string, dumpEvery bool) (*HistResul
 		script = []*Op{{Kind: "CreateCollection", Coll: c}, {Kind: "CreateIndex", Coll: c, Field: "xy"}, {Kind: "CreateIndex", Coll: c, Field: "x"},
 			{Kind: "CreateIndex", Coll: c, Field: "n.a"},
 			{Kind: "Insert", Coll: c, Docs: []map[string]interface{}{h.doc(""), h.doc(""), {"x": int64(1), "xy": int64(2), "n": map[string]interface{}{"a": int64(3)}}, {"x": "s", "xy": nil}}},
-			{Kind: "CreateIndex", Coll: c, Field: "n"}, {Kind: "DropIndex", Coll: c, Field: "x"},
+			{Kind: "CreateIndex", Coll: c, Field: "n"},
+			// an assignment below an indexed object, then assignments OF the object above an indexed path: both indexes follow,
+			// and an object value replaces the stored object (it is not merged into it)
+			{Kind: "Update", Q: QSpec{Coll: c}, KVs: map[string]interface{}{"n.a": int64(7)}},
+			{Kind: "FindAll", Q: QSpec{Coll: c, Steps: []QStep{{Kind: "sort", Opts: []SortOpt{{"n", 1}}}}}, Mode: 2},
+			{Kind: "Update", Q: QSpec{Coll: c}, KVs: map[string]interface{}{"n": map[string]interface{}{"a": int64(8), "b": int64(1)}}},
+			{Kind: "FindAll", Q: QSpec{Coll: c, Steps: []QStep{{Kind: "where", C: &Crit{Kind: "cmp", Op: "OEq", Field: "n.a", Val: Operand{Lit: int64(8)}}}}}, Mode: 2},
+			{Kind: "Update", Q: QSpec{Coll: c}, KVs: map[string]interface{}{"n": map[string]interface{}{"c": int64(2)}}},
+			{Kind: "FindAll", Q: QSpec{Coll: c, Steps: []QStep{{Kind: "sort", Opts: []SortOpt{{"n.a", 1}}}}}, Mode: 2},
+			{Kind: "DropIndex", Coll: c, Field: "x"},
 			{Kind: "FindAll", Q: QSpec{Coll: c, Steps: []QStep{{Kind: "sort", Opts: []SortOpt{{"xy", 1}}}}}, Mode: 2},
 			{Kind: "DropIndex", Coll: c, Field: "n"},
 			{Kind: "FindAll", Q: QSpec{Coll: c, Steps: []QStep{{Kind: "sort", Opts: []SortOpt{{"n.a", -1}}}}}, Mode: 2}}
@@ -876,6 +905,9 @@ func runHistory(g *Gen, cfg HistCfg, backend string, dumpEvery bool) (*HistResul
 			op = script[i]
 		} else {
 			op = h.next()
+		}
+		if op.Kind == "Update" || op.Kind == "UpdateFunc" || op.Kind == "Delete" {
+			op.Q = totalizeWindow(op.Q)
 		}
 		if op.Kind == "FindFirst" && !totalOrNoSort(op.Q) {
 			op.Kind = "Exists"
@@ -916,6 +948,20 @@ func runHistory(g *Gen, cfg HistCfg, backend string, dumpEvery bool) (*HistResul
 			{Kind: "CreateIndex", Coll: c, Field: "a"}, {Kind: "DropIndex", Coll: c, Field: "a"}, {Kind: "DropCollection", Coll: c}, {Kind: "Export", Coll: c},
 			{Kind: "HasCollection", Coll: c},
 		} {
+			h.dist[op.Kind]++
+			r := op.exec(env)
+			dump, err := dumpStore(env.st.inner)
+			if err != nil {
+				dump = []T{int64(95), TS(err.Error())}
+			}
+			res.Steps = append(res.Steps, StepRec{Op: op, Res: r, Dump: dump})
+		}
+	}
+	if !env.closed && !env.wedged && cfg.Focus == "ids" {
+		// the same document OBJECT twice in one batch: the id generated for its first occurrence is a duplicate at the second
+		for _, op := range []*Op{{Kind: "CreateCollection", Coll: "zz-dup"},
+			{Kind: "Insert", Coll: "zz-dup", Docs: []map[string]interface{}{{"a": int64(1)}, {"a": int64(1)}}, DupPtr: true},
+			{Kind: "Count", Q: QSpec{Coll: "zz-dup"}}} {
 			h.dist[op.Kind]++
 			r := op.exec(env)
 			dump, err := dumpStore(env.st.inner)
